@@ -72,4 +72,34 @@ splitter; recorded because the capacity defect needs `maxChunkSize < MaxVectorOf
 theorem key_splitter_window :
     Gen.Prolly.minChunkSize = 512 ∧ Gen.Prolly.maxChunkSize = 16384 ∧ Gen.Prolly.maxChunkSize < 2 ^ 16 - 1 := by decide
 
+/-- `MutableMap.Put` flushes when more than `maxPending` keys are pending; `Delete` never
+flushes; default threshold 64Ki (`MutMap.put/delete`) -/
+theorem mutable_flush_rule :
+    Gen.Prolly.mutable_Put_calls = ["mut.tuples.Put", "mut.tuples.Edits.Count", "mut.flushPending"]
+    ∧ Gen.Prolly.mutable_Put_conds = ["err != nil", "mut.tuples.Edits.Count() > mut.maxPending"]
+    ∧ Gen.Prolly.mutable_Delete_calls = ["mut.tuples.Delete"]
+    ∧ Gen.Prolly.mutable_Delete_conds = []
+    ∧ Gen.Prolly.defaultMaxPending = 64 * 1024 := by decide
+
+/-- `Checkpoint`/`Revert`/`flushPending` skeleton (`MutMap.checkpoint/revert/flush`) -/
+theorem mutable_checkpoint_rule :
+    Gen.Prolly.mutable_Checkpoint_calls = ["mut.tuples.Edits.Checkpoint"]
+    ∧ Gen.Prolly.mutable_Revert_calls = ["mut.tuples.Edits.Revert"]
+    ∧ Gen.Prolly.mutable_Revert_conds = ["mut.stash != nil"]
+    ∧ Gen.Prolly.mutable_flushPending_calls =
+        ["mut.tuples.Edits.HasCheckpoint", "mut.tuples.Copy", "cp.Edits.Revert", "tmpGMM.flushPending",
+         "mut.flusher.GetDefaultSerializer", "mut.flusher.ApplyMutationsWithSerializer", "mut.tuples.Edits.Truncate"]
+    ∧ Gen.Prolly.mutable_flushPending_conds = ["mut.tuples.Edits.HasCheckpoint()", "deep", "err != nil", "err != nil"] := by decide
+
+/-- the skip list's checkpoint is a position in its append-only node log, `1` meaning "none"
+(`EditLog.checkpoint/hasCheckpoint/revert/truncate`) -/
+theorem skiplist_checkpoint :
+    Gen.Prolly.skip_Checkpoint_body = "{ l.checkpoint = l.nextNodeId() }"
+    ∧ Gen.Prolly.skip_HasCheckpoint_body = "{ return l.checkpoint > nodeId(1) }"
+    ∧ Gen.Prolly.skip_Revert_body =
+        "{ cp := l.checkpoint keepers := l.nodes[1:cp] l.Truncate() for _, nd := range keepers { if err := l.Put(ctx, nd.key, nd.val); err != nil { return err } } l.checkpoint = cp return nil }"
+    ∧ Gen.Prolly.skip_Truncate_body =
+        "{ l.nodes = l.nodes[:1] // point sentinel.prev at itself s := l.nodePtr(sentinelId) s.next = tower{} s.prev = sentinelId l.checkpoint = nodeId(1) l.count = 0 }" :=
+  ⟨rfl, rfl, rfl, rfl⟩
+
 end DoltVerif.Tie.Prolly
